@@ -380,6 +380,26 @@ def static_access(f, n):
     return "read"
 
 
+def _under_lock_guard(f, node):
+    """the node is in the scope of an RAII lock: an enclosing compound statement declares, before the node, a variable
+    whose type is std::lock_guard / unique_lock / scoped_lock"""
+    prev = node
+    for a in f.ancestors(node):
+        if a["k"] == "CompoundStmt":
+            for st in a.get("c", []):
+                if st is None:
+                    continue
+                if any(z is prev for z in walk(st)) or st is prev:
+                    break
+                for v in walk(st):
+                    if v["k"] == "VarDecl":
+                        t = f.unit.type((f.unit.decl(v.get("d")) or {}).get("t")) or {}
+                        if any(k_ in ((t.get("c") or "") + (t.get("s") or "")) for k_ in ("lock_guard", "unique_lock", "scoped_lock")):
+                            return True
+        prev = a
+    return False
+
+
 def check_shared(ctx, P, T):
     tasks = P.subclasses("abigail::workers::task")
     notif = P.subclasses("abigail::workers::queue::task_done_notify")
@@ -401,6 +421,9 @@ def check_shared(ctx, P, T):
             if not d or d["k"] != "Var" or d.get("st") not in ("global", "static_local", "static_member") \
                     or d.get("const") or d.get("tls"):
                 continue
+            tt = f.unit.type(d.get("t")) or {}
+            if any(k_ in ((tt.get("c") or "") + (tt.get("s") or "")) for k_ in ("std::mutex", "pthread_mutex_t", "std::once_flag", "std::atomic", "std::recursive_mutex")):
+                continue                        # synchronisation objects are meant to be shared
             n_refs += 1
             a = static_access(f, n)
             if a == "read":
@@ -418,7 +441,7 @@ def check_shared(ctx, P, T):
            True, "", "%d references to mutable statics classified" % n_refs)
     ctx.floor("R-SHARED", "references to mutable statics in the closure", n_refs, 20)
     # ---- writes to the shared options object
-    n_opt = 0
+    n_opt = n_locked = 0
     for u in seen:
         f = P.funcs.get(u)
         if f is None or f.dep:
@@ -432,9 +455,24 @@ def check_shared(ctx, P, T):
                     w = par is not None and par["k"] in ("BinaryOperator", "CompoundAssignOperator") and \
                         par["c"][0]["i"] == n["i"] and par.get("op", "").endswith("=") and \
                         par.get("op") not in ("==", "!=", "<=", ">=")
+                    # a mutating member call on a field (container) of the options object is a write too
+                    MUT = ("push_back", "emplace_back", "insert", "emplace", "clear", "erase", "assign", "resize", "append", "swap",
+                           "operator=", "operator+=", "operator[]", "reset")
+                    q = par
+                    if q is not None and q["k"] == "MemberExpr":
+                        c = f.parent(q)
+                        if c is not None and c["k"] in ("CXXMemberCallExpr", "CXXOperatorCallExpr") and (f.decl(c) or {}).get("n") in MUT and \
+                                not (f.decl(c) or {}).get("const"):
+                            w = True
+                    if w and _under_lock_guard(f, n):
+                        n_locked += 1
+                        ctx.ob("R-SHARED", "%s writes options.%s under a lock" % (f.q, f.decl(n)["n"]), True, f.loc(n),
+                               "the write is in the scope of a std::lock_guard / unique_lock (the tasks that write the field "
+                               "serialise; its readers run after the tasks have completed)")
+                        w = False
                     if w:
                         ctx.ob("R-SHARED", "%s writes options.%s" % (f.q, f.decl(n)["n"]), False, f.loc(n),
-                               "all tasks alias one options object; a write from a task races with the other tasks' reads")
+                               "all tasks alias one options object; a write from a task races with the other tasks' writes and reads")
     ctx.ob("R-SHARED", "no task-reachable function writes a field of the shared options object", True, "",
            "%d accesses to options fields in the closure, all reads" % n_opt)
     # ---- MT-unsafe libc
